@@ -56,6 +56,18 @@ BOOLEAN_HTML_ATTRIBUTES = [
 ]
 
 
+def _qualified(value: Any) -> str:
+    """Name of an importable object or expression type for the digest."""
+    if isinstance(value, partial):
+        return "partial({}, {!r}, {!r})".format(
+            _qualified(value.func), value.args, sorted(value.keywords.items())
+        )
+    name = getattr(value, '__qualname__', getattr(value, '__name__', None))
+    if name is None:
+        return repr(value)
+    return "{}.{}".format(getattr(value, '__module__', None), name)
+
+
 class PageTemplate(BaseTemplate):
     """Constructor for the page template language.
 
@@ -394,6 +406,17 @@ class PageTemplate(BaseTemplate):
                 v = sorted(v)
             digest.update(
                 (";{}={}".format(attr, str(v))).encode('utf-8')
+            )
+
+        # So do the default marker (the compiled code imports it by name)
+        # and the expression types (they translate the expressions)
+        marker = getattr(self.default_marker, 'value', self.default_marker)
+        digest.update(
+            (";default_marker={}".format(_qualified(marker))).encode('utf-8')
+        )
+        for name, factory in sorted(self.expression_types.items()):
+            digest.update(
+                (";{}:={}".format(name, _qualified(factory))).encode('utf-8')
             )
 
         return digest.hexdigest()[:32]
